@@ -75,7 +75,7 @@ func (sim) Explain(prop string, st map[string]int64) string {
 			"probe.rejection-of-recorded-tx", "probe.resend-with-unmined", "probe.resend-chain", "fault.backend-answer.transport", "fault.backend-answer.reject-fee",
 			"fault.backend-answer.reject-generic", "fault.backend-answer.reject-conflict", "fault.backend-answer.notify-received-fails", "fault.backend-answer.notify-received-2nd-fails", "probe.resend-rejected", "probe.rejection-with-recorded-child", "probe.resend-child-of-two-outputs-of-one-parent"}
 	case "C15":
-		probes = []string{"probe.reorg-back-to-known-blocks", "probe.chain-shortened", "probe.ops-during-initial-rescan", "probe.reorg-depth>1", "probe.reorg-with-wallet-tx", "probe.restart-tip-not-on-chain", "probe.stale-disconnect", "probe.reorg-equal-height", "probe.sync-after-backend-failure", "probe.node-moved-while-stopped"}
+		probes = []string{"probe.repeated-disconnect", "probe.reorg-back-to-known-blocks", "probe.chain-shortened", "probe.ops-during-initial-rescan", "probe.reorg-depth>1", "probe.reorg-with-wallet-tx", "probe.restart-tip-not-on-chain", "probe.stale-disconnect", "probe.reorg-equal-height", "probe.sync-after-backend-failure", "probe.node-moved-while-stopped"}
 	}
 	s := "probes: "
 	for _, k := range probes {
@@ -220,7 +220,7 @@ func genC15(r *core.Rand, p *core.Plan) {
 		case 4:
 			p.Ops = append(p.Ops, core.Op{K: "sync"})
 		case 5:
-			p.Ops = append(p.Ops, core.Op{K: "stale", A: []int64{int64(r.Intn(3)), int64(r.Intn(5))}})
+			p.Ops = append(p.Ops, core.Op{K: "stale", A: []int64{int64(r.Intn(4)), int64(r.Intn(5))}})
 		case 6:
 			p.Ops = append(p.Ops, core.Op{K: "redeliver", A: []int64{int64(r.Intn(50))}})
 		case 7:
@@ -663,7 +663,16 @@ func (rs *runState) exec(task, step int, op core.Op) {
 		}
 		// a disconnect notification for a block the wallet does not have at
 		// that height: either beyond its tip or with a hash it never saw
-		kind := int(uint64(op.Arg(0)) % 3)
+		kind := int(uint64(op.Arg(0)) % 4)
+		if kind == 3 {
+			// the same genuine disconnect delivered twice
+			if x.client.RepeatDisconnect(int(op.Arg(1))) {
+				env.Count("probe.repeated-disconnect")
+				env.Count("fault.repeated-disconnect")
+				env.Eff()
+			}
+			return
+		}
 		tip := x.node.Tip()
 		var b *simchain.Block
 		switch kind {
